@@ -1,3 +1,2 @@
--- This module serves as the root of the `SimuVerif` library.
--- Import modules here that should be built as part of the library.
-import SimuVerif.Basic
+-- root of the library: every property module (and through them models, generated files, lemmas)
+import SimuVerif.Properties.C05
